@@ -1,21 +1,31 @@
 #!/usr/bin/env python3
-"""ingest_seed.py <Cxx> <N> <detected_by comma list> [extra note]  — copies a confirmed sub-agent seed into /verif/seeded/"""
+"""ingest_seed.py <Cxx> <N> <detected_by comma list> [extra note] [--round b|c]
+copies a confirmed sub-agent seed into /verif/seeded/ (round 1: Cxx-mN from /tmp/wtout/Cxx; round 2 ('b'): Cxx-m(N+2)
+from /tmp/wtout/Cxxb; round 3 ('c'): Cxx-m(N+4) from /tmp/wtout/Cxxc)"""
 import json, os, shutil, sys
-pid, n, det = sys.argv[1], sys.argv[2], sys.argv[3].split(',')
-note = sys.argv[4] if len(sys.argv) > 4 else ''
-src = f'/tmp/wtout/{pid}'
-dst = f'/verif/seeded/{pid}-m{n}'
+args = sys.argv[1:]
+rnd = ''
+if '--round' in args:
+    i = args.index('--round'); rnd = args[i + 1]; del args[i:i + 2]
+pid, n, det = args[0], int(args[1]), [d for d in args[2].split(',') if d]
+note = args[3] if len(args) > 3 else ''
+src = f'/tmp/wtout/{pid}{rnd}'
+k = n + {'': 0, 'b': 2, 'c': 4}[rnd]
+dst = f'/verif/seeded/{pid}-m{k}'
 os.makedirs(dst, exist_ok=True)
 shutil.copy(f'{src}/mut{n}.diff', f'{dst}/patch.diff')
 shutil.copy(f'{src}/mut{n}_demo.py', f'{dst}/demo.py')
 notes = open(f'{src}/mut{n}_notes.txt').read()
 suite = ''
-for line in open('/tmp/suite_all.log'):
-    if line.startswith(f'{pid} mut{n} '):
-        suite = line.strip()
-meta = {'breaks': pid, 'origin': 'written by a sub-agent from the property text alone (no access to /verif)',
+log = {'': '/tmp/suite_all.log', 'b': '/tmp/suite_all2.log', 'c': '/tmp/suite_all3.log'}[rnd]
+if os.path.exists(log):
+    for line in open(log):
+        if line.startswith(f'{pid} mut{n} '):
+            suite = line.strip()
+meta = {'breaks': pid, 'origin': 'written by a sub-agent from the property text alone (no access to /verif)' + (f', round {"23"["bc".index(rnd)]}' if rnd else ''),
         'author_notes': notes, 'detected_by': det,
         'what_was_run': f'tools/evalmut.sh (demo exits 0 on the clean tree, non-zero with the patch); full pinned suite on the patched tree: {suite}; '
-                        f'tools/seedtest.sh seeded/{pid}-m{n}/patch.diff {" ".join(det)} -> each exits 1 with a VIOLATION line', 'note': note}
+                        + (f'tools/seedtest.sh seeded/{pid}-m{k}/patch.diff {" ".join(det)} -> each exits 1 with a VIOLATION line' if det else
+                           'no check reports it (see note)'), 'note': note}
 json.dump(meta, open(f'{dst}/meta.json', 'w'), indent=1)
 print('ingested', dst)
